@@ -555,6 +555,7 @@ SITES = {
     "invariant": sites.Site("invariant", "prop", inv_check),
     "prop_assign_dtype": sites.Site("prop_assign_dtype", "prop", dtype_check),
     "live_views_assign": sites.Site("live_views_assign", "prop", xmap_views.views_assign_check),
+    "input_isolation": sites.Site("input_isolation", "prop", xmap_views.input_isolation_check),
 }
 
 
@@ -864,6 +865,10 @@ def generate_views(ctx):
         c = xmap_views.gen_views_case(rng, assign=True)
         ctx.count("live_views_assign", ("lva", i, tuple(c["shape"]), len(c["ops"])))
         yield "live_views_assign", c
+    for i in range(24 if ctx.tier == "quick" else 300):
+        c = xmap_views.gen_input_isolation(rng)
+        ctx.count(f"input_isolation/{c['dtype']}{'/strided' if c['strided'] else ''}", ("iso", i, tuple(c["phase_id"])))
+        yield "input_isolation", c
 
 
 def run(ctx, status):
